@@ -49,7 +49,7 @@ func c17RowTypes(c *core.Ctx) map[string]bool {
 			for i := 0; i < it.NumMethods(); i++ {
 				m := it.Method(i)
 				switch m.Name() {
-				case "getLines", "getDiscounts", "getCharges":
+				case "getLines", "getDiscounts", "getCharges", "getPreceding":
 					add(m.Type().(*types.Signature).Results().At(0).Type())
 				}
 			}
